@@ -608,7 +608,14 @@ class Effects:
         return res
 
     def _call(self, c: ast.Call, f: FuncInfo) -> set[str]:
-        return self._call0(c, f) | self._optional_arg_flow(c, f)
+        r = self._call0(c, f) | self._optional_arg_flow(c, f)
+        # bytes.decode / str.encode with a lenient error handler cannot fail
+        if isinstance(c.func, ast.Attribute) and c.func.attr in ("decode", "encode") and any(
+                k.arg == "errors" and isinstance(k.value, ast.Constant)
+                and k.value.value in ("replace", "ignore", "backslashreplace", "surrogateescape")
+                for k in c.keywords):
+            r = r - {"UnicodeDecodeError", "UnicodeEncodeError"}
+        return r
 
     def _optional_arg_flow(self, c: ast.Call, f: FuncInfo) -> set[str]:
         """An attribute of a received/typed message (None when the AVP is absent) is passed to a
